@@ -42,6 +42,15 @@ CHECKS["C10"] = ("exploration",
          "4.C10", "generated large grammars + bundled examples x differential oracle across repeated in-process compilations and separately started processes with generated environments",
          "a hash seed fixed at compile time cannot be varied from outside (stated limit); trusted: nothing beyond byte comparison")
 
+CHECKS["C13"] = ("exploration",
+         "Generated grammars (literals with backslash escapes, random multi-line layout) with one planted located mistake or a syntax error inserted into the k-th statement: every span of the library's Error and every PATH:LINE:COL the binary prints must coincide with a position the harness's printer recorded for a construct of the right kind, 'previous' precedes 'duplicate', the snippet is that source line and the underline starts under the column.",
+         "4.C13", "generated grammars + planted located mistakes / inserted syntax errors (seeded proptest choice streams) x position oracle from the printer's own token marks",
+         "trusted: printer marks (byte and character columns both accepted); cycle traces may include the definition the search started from; warnings' locations are judged by C15 with the same marks")
+CHECKS["C15"] = ("exploration",
+         "Generated grammars with stress on the reference bookkeeping (chains of unused definitions, names referred to only by unused definitions, unused specialisations for target/other shells, names defined for some shells only, plain+specialised names): the three warning sets of the validated grammar (library) and the located warnings parsed from the binary's stderr must equal the sets the statement prescribes, exactly once each, at an occurrence of the name in the right role; exit status 0; the script equals the script of the grammar without the unreferenced definitions.",
+         "4.C15", "generated grammars (seeded proptest choice streams) x set oracle computed from the harness's own reference resolver + metamorphic oracle (unreferenced definitions removed)",
+         "trusted: reference resolver (model.rs), printer marks, stderr reader")
+
 NOT_YET = {
 }
 
